@@ -9,7 +9,8 @@
 (* Representation.  An abstract state (kind, cfg, settings, hist) of module Objects is held as  *)
 (* a node of a trie: `roots` interns (kind, cfg, settings) of objects with an empty history,    *)
 (* `trF` maps <<node, call>> to [next node, output, ...].  Node identity is therefore equality  *)
-(* of (kind, cfg, settings at the root, the calls made since), i.e. Objects!Equivalent.  `trE`  *)
+(* of (kind, cfg, settings at the root = Objects' `base`, the calls made since), i.e.           *)
+(* Objects!Equivalent.  `trE`                                                                   *)
 (* is the same over calls with the declared-unobservable format erased (Objects!EraseCall),     *)
 (* i.e. Objects!EquivalentModFmt.                                                               *)
 (*                                                                                              *)
@@ -17,11 +18,14 @@
 (* CheckC13: outputs under the erased key are equal (packets of the three entry points; sample  *)
 (*           counts and final ranges of the three decoder formats) and every decode event       *)
 (*           satisfies the sample relations of Objects!SampleRelationOK / ProjectionOK.         *)
+(* TolerateProj16: the projection decoder's 16-bit relation is waived (and counted) on runs in which the float output comes *)
+(*           within 32 units of the 16-bit limits, i.e. where the 16-bit output has to saturate: the 16-bit matrix product     *)
+(*           accumulates in 16 bits and wraps there (known finding).                                                          *)
 (* TolerateF3: a mismatch under the full key is let through (and counted) when it has the shape *)
 (*           of finding F3: an encoder with in-band FEC on, one of the two parties having been  *)
 (*           reset after it had encoded.  The runner uses it only to classify a rejection.      *)
 EXTENDS Objects, Json, IOUtils
-CONSTANTS CheckC12, CheckC13, TolerateF3
+CONSTANTS CheckC12, CheckC13, TolerateF3, TolerateProj16
 VARIABLES l, obj, roots, trF, trE, nextId
 vars == <<l, obj, roots, trF, trE, nextId>>
 
@@ -36,13 +40,14 @@ NewObj(kind, cfg) == [live |-> TRUE, kind |-> kind, cfg |-> cfg, settings |-> No
 
 \* counters (TLC registers; one worker): 1 full-key comparisons, 2 erased-key comparisons, 3 comparisons on copies,
 \* 4 comparisons on reset objects, 5 erased-key comparisons between different formats, 6 tolerated F3 mismatches,
-\* 7 decode events with samples beyond +-1 whose 16-bit relation was evaluated, 8 projection events evaluated
+\* 7 decode events with samples beyond +-1 whose 16-bit relation was evaluated, 8 projection events evaluated,
+\* 9 projection events let through as the known 16-bit wrap
 Holds(b) == b = TRUE      \* evaluate a formula as a value (TLC would otherwise split the action on its disjunctions)
 Bump(i) == TLCSet(i, TLCGet(i) + 1)
 BumpIf(b, i) == IF b THEN Bump(i) ELSE TRUE
 
 Init == /\ l = 1 /\ obj = [o \in Slots |-> DeadObj] /\ roots = << >> /\ trF = << >> /\ trE = << >> /\ nextId = 1
-        /\ \A i \in 1..8 : TLCSet(i, 0)
+        /\ \A i \in 1..9 : TLCSet(i, 0)
 
 Ev == Tr[l]
 More == l <= Len(Tr)
@@ -139,13 +144,16 @@ TDecode ==
          outF == [rc |-> e.rc, d |-> e.dF]
          outE == [rc |-> e.rc, d |-> e.dE]
          sov2 == st.sov \/ e.sover > 0
+         projKnown == TolerateProj16 /\ st.kind = "P" /\ e.fmt = "i16" /\ e.near > 0
          rel == /\ e.cnts = e.scnts /\ e.rngs = e.srngs           \* same sample count and final range as the float twin
-                /\ IF st.kind = "P" THEN (sov2 \/ ProjectionOK(e.fmt, e)) /\ (e.fmt = "f32" => e.ds = e.sds)
+                /\ IF st.kind = "P" THEN (sov2 \/ ProjectionOK(e.fmt, e) \/ projKnown) /\ (e.fmt = "f32" => e.ds = e.sds)
                    ELSE SampleRelationOK(e.fmt, e)
      IN /\ CheckC13 => Holds(rel)
         /\ Step(e.o, c, outF, outE, [st EXCEPT !.sov = sov2])
         /\ BumpIf(CheckC13 /\ st.kind # "P" /\ e.fmt = "i16" /\ e.over > 0, 7)
         /\ BumpIf(CheckC13 /\ st.kind = "P" /\ e.fmt # "f32" /\ ~sov2, 8)
+        /\ BumpIf(CheckC13 /\ st.kind = "P" /\ ~sov2 /\ ~ProjectionOK(e.fmt, e), 9)
+        /\ IF CheckC13 /\ st.kind = "P" /\ ~sov2 /\ ~ProjectionOK(e.fmt, e) THEN PrintT(<<"TOLERATED_PROJ", l>>) ELSE TRUE
   /\ l' = l + 1
 
 Next == TSkip \/ THist \/ TCreate \/ TCopy \/ TReset \/ TDestroy \/ TCtl \/ TEncode \/ TDecode
@@ -153,7 +161,7 @@ Spec == Init /\ [][Next]_vars
 
 Accepted ==
   LET n == TLCGet("stats").diameter IN
-  /\ PrintT(<<"STATS", TLCGet(1), TLCGet(2), TLCGet(3), TLCGet(4), TLCGet(5), TLCGet(6), TLCGet(7), TLCGet(8)>>)
+  /\ PrintT(<<"STATS", TLCGet(1), TLCGet(2), TLCGet(3), TLCGet(4), TLCGet(5), TLCGet(6), TLCGet(7), TLCGet(8), TLCGet(9)>>)
   /\ IF n - 1 = Len(Tr) THEN TRUE
      ELSE PrintT(<<"REJECTED_AT", n, ToString(Tr[n])>>)
 =============================================================================
